@@ -43,7 +43,10 @@ def run_worker(spec, env_extra=None):
 def specs_for(rng, thorough):
     kinds = ["both", "heating", "cooling", "seasonal", "weekday_weekend", "flat", "outliers", "smooth"]
     out = []
-    out.append(dict(family="daily", profile="current", meter_seed=rng.randrange(1 << 20), kind=rng.choice(kinds)))
+    # two heavy-tailed meters first: their adaptive-loss searches visit interior alphas, so anything the first fit leaves behind in
+    # the process (caches keyed on coarse values, accumulators) is met again by the second — which is also fitted in fresh processes
+    out.append(dict(family="daily", profile="current", meter_seed=rng.randrange(1 << 20), kind="outliers"))
+    out.append(dict(family="daily", profile="current", meter_seed=rng.randrange(1 << 20), kind="outliers"))
     out.append(dict(family="daily", profile="legacy", meter_seed=rng.randrange(1 << 20), kind=rng.choice(kinds)))
     out.append(dict(family="billing", profile="billing", meter_seed=rng.randrange(1 << 20), kind=rng.choice(kinds[:3])))
     out.append(dict(family="hourly", meter_seed=rng.randrange(1 << 10), seed=0))
@@ -100,7 +103,8 @@ def run(ctx):
             # (1) twice in this process, global RNG perturbed differently before each fit
             runs["in_process_a"] = c03_worker.fit_spec(dict(spec, np_seed=1))
             # (2) after an unrelated fit (history), global RNG in yet another state
-            other = dict(family="daily", profile="legacy", meter_seed=spec["meter_seed"] + 17, kind="heating")
+            other = dict(family="daily", profile=spec.get("profile", "current") if spec["family"] == "daily" else "legacy",
+                         meter_seed=spec["meter_seed"] + 17, kind="outliers" if spec.get("kind") == "outliers" else "heating")
             c03_worker.fit_spec(dict(other, np_seed=5))
             runs["in_process_after_other_fit"] = c03_worker.fit_spec(dict(spec, np_seed=2))
         except Exception as e:  # noqa
